@@ -13,6 +13,13 @@ Workload : generated FlowIR documents in which every layer (default/platform x g
            flag combinations, raw(), get_component_configuration() with other flags / components /
            platforms, get_component_variables()); documents carry stage blueprints with variable
            references and a dict-valued option (kubernetes.podSpec) in every layer.
+           Plus the route slice (gen/c04_routes.py, checks/_c04_routes.py): every component is ALSO read
+           from concrete.instance(platform=P, loader flags), from concrete.replicate(platform=P) and
+           from a package written to disk and loaded with configurationForExperiment(platform=P,
+           variable_files=[user file], primitive=False) + configurationForNode; documents carry
+           chains inside one component (A -> B, both defined by the component / its override, B also
+           defined with another value by a stage-scoped lower layer).  A third of the checkpoints of
+           the update histories read through instance() / replicate() of the live object as well.
 Observe  : FlowIRConcrete.get_component_configuration(c, raw=False, include_default=True, platform=P)
            (through FlowIRExperimentConfiguration when a user variable file is part of the case).
 Oracle   : ref/c04_layering.py, an independent resolver of the two lattices in the statement.
@@ -35,11 +42,14 @@ KEY_FOREIGN = "C04:foreign-override-interpolated"
 
 from gen.c04_docs import PALETTE, VAR_ORDER, gen_doc  # noqa: E402
 from gen.c04_updates import apply_to_document, gen_history  # noqa: E402
+from gen.c04_routes import gen_route_doc  # noqa: E402
+from checks import _c04_routes as routes  # noqa: E402
 
 
 # ----------------------------------------------------------------------------- lattice slice
 
 N_HIST_QUICK, N_HIST_THOROUGH, HIST_PER_JOB = 160, 1600, 10
+N_ROUTE_QUICK, N_ROUTE_THOROUGH, ROUTE_PER_JOB = 200, 2000, 8
 
 LATTICE_MODES = [("opt", ("resourceManager", "config", "backend")), ("opt", ("command", "environment")), ("var", "lv")]
 
@@ -581,19 +591,164 @@ def run_history(hist, w, scratch):
             if not judge(w, witness, comp_id, platform, comp_dict, status, exp, info, ostatus, obs,
                          pre=pre, cnt="update_"):
                 ok = False
+        if ok and step.get("routes"):
+            w.count("update_route_checkpoints")
+            base = {"history": {"doc": hist["doc"], "user": hist.get("user"), "active": active,
+                                "steps": hist["steps"][:k + 1]}, "step": k}
+            for q, platform in enumerate(doc["platforms"]):
+                flags = routes.INSTANCE_FLAG_SETS[(k + q) % len(routes.INSTANCE_FLAG_SETS)]
+                products = {r_: produce(r_, live, platform, flags, tracked, user_applied, scratch)
+                            for r_ in step["routes"]}
+                if not judge_routes(w, tracked, user_applied, platform, products, flags, base, "update_route_",
+                                    pre="update slice, query step %d after %d operations on the live object, " % (
+                                        k, len(all_ups))):
+                    ok = False
         if not ok:
             break               # one witness per history; later queries would repeat it
     w.count("update_histories")
     return ok
 
 
+# ----------------------------------------------------------------------------- route slice
+
+ROUTES = ("instance", "replicate", "package")
+
+
+def patched_live(doc, user, platform, scratch):
+    """A live FlowIRConcrete of `doc` for `platform` with the user variable file applied."""
+    from experiment.model.frontends.flowir import FlowIRConcrete
+    live = FlowIRConcrete(copy.deepcopy(doc), platform, None)
+    if user is not None:
+        import yaml
+        import experiment.model.conf as conf
+        path = os.path.join(scratch, "variables-r.yaml")
+        with open(path, "w") as f:
+            yaml.safe_dump(user, f)
+        cfg = conf.FlowIRExperimentConfiguration(
+            path=None, platform=platform, variable_files=[path], system_vars=None, is_instance=False,
+            createInstanceFiles=False, primitive=True, concrete=live, updateInstanceFiles=False,
+            variable_substitute=True, manifest=None, validate=False)
+        live = cfg.get_flowir_concrete(return_copy=False)
+    return live
+
+
+def produce(route, live, platform, flags, doc, user, scratch):
+    """The artefact a route hands to its readers, or the exception it raised."""
+    try:
+        if route == "instance":
+            return routes.produce_instance(live, platform, flags)
+        if route == "replicate":
+            return routes.produce_replicate(live, platform)
+        root = os.path.join(scratch, "pkg")
+        import shutil
+        shutil.rmtree(root, ignore_errors=True)
+        os.makedirs(root)
+        pkg, files = routes.write_package(doc, user, root)
+        return routes.load_package(pkg, files, platform)
+    except Exception as e:
+        return e
+
+
+def read_route(route, product, comp_id, platform):
+    import experiment.model.errors as errors
+    try:
+        if isinstance(product, Exception):
+            raise product
+        if route == "package":
+            if routes.node_name_round_trips(comp_id):
+                got = product.configurationForNode(routes.node_name(comp_id))
+            else:
+                got = product.get_flowir_concrete(return_copy=False).get_component_configuration(
+                    tuple(comp_id), raw=False, include_default=True)
+        else:
+            got = routes.read_from_flowir(product, comp_id, platform)
+        return "ok", got
+    except errors.FlowIRVariableUnknown as e:
+        return "raised", {"class": type(e).__name__, "message": str(e)[:400], "label": e.label,
+                          "variable": e.variable_route}
+    except Exception as e:
+        return "raised", {"class": type(e).__name__, "message": str(e)[:400], "label": None, "variable": None}
+
+
+def describe_route(route, platform, flags):
+    if route == "instance":
+        return "component read from instance(platform=%r%s)" % (
+            platform, "".join(", %s=%r" % kv for kv in sorted((flags or {}).items())))
+    if route == "replicate":
+        return "component read from replicate(platform=%r, ignore_errors=True)" % platform
+    return "package on disk loaded with configurationForExperiment(platform=%r, variable_files=[user file], " \
+           "primitive=False) + configurationForNode" % platform
+
+
+def judge_routes(w, doc, user, platform, products, flags, witness_base, cnt, pre=""):
+    """Every component of `doc` on `platform` through every produced route.  `products` maps
+    route -> artefact.  Returns False when a violation was recorded."""
+    ok = True
+    for comp_dict in doc["components"]:
+        comp_id = (comp_dict["stage"], comp_dict["name"])
+        (status, exp), info = ref.resolve(doc, comp_id, platform, builtin_defaults(), user)
+        stable = status == "undefined" or routes.scope_stable(info)
+        chains = routes.chain_inside_component(info) if status == "ok" else []
+        for route, product in products.items():
+            if not stable:
+                w.count(cnt + route + "_not_judged_lower_scope_references_higher_scope")
+                continue
+            ostatus, obs = read_route(route, product, comp_id, platform)
+            w.evaluated()
+            w.count(cnt + route + "_evaluated")
+            if user is not None:
+                w.count(cnt + route + "_with_user_variables")
+            if chains:
+                w.count(cnt + route + "_chain_inside_component")
+                if any(la == "ovr" for _, la, _, _ in chains):
+                    w.count(cnt + route + "_chain_starts_in_override")
+                for low in sorted(set(l for _, _, _, lows in chains for l in lows)):
+                    w.count(cnt + route + "_chain_lower_layer_" + low)
+            w.distinct("T:%s:%d:%d:%s:%d" % (route, bool(chains), user is not None, status, platform == "default"))
+            witness = dict(witness_base)
+            witness.update({"comp": list(comp_id), "platform": platform, "route": route,
+                            "flags": flags if route == "instance" else None,
+                            "chains_inside_component": [list(c[:3]) for c in chains],
+                            "expected": {"status": status, "value": exp if status != "ok" else None},
+                            "observed": obs if ostatus == "raised" else None})
+            if not judge(w, witness, comp_id, platform, comp_dict, status, exp, info, ostatus, obs,
+                         pre="%s%s: " % (pre, describe_route(route, platform, flags)), cnt=cnt + route + "_"):
+                ok = False
+    return ok
+
+
+def run_route_case(doc, user, platform, which, flags, w, scratch, witness_base, cnt="route_"):
+    live = patched_live(doc, user, platform, scratch)
+    products = {r_: produce(r_, live, platform, flags, doc, user, scratch) for r_ in which}
+    for r_, p_ in products.items():
+        if isinstance(p_, Exception):
+            w.count("%s%s_production_raised_%s" % (cnt, r_, type(p_).__name__))
+    return judge_routes(w, doc, user, platform, products, flags, witness_base, cnt)
+
+
 def run_job(job, w):
     scratch = vlib.mkscratch("c04")
     if job["kind"] == "replay":
-        if "history" in job["case"]:
+        if "route_case" in job["case"]:
+            rc = job["case"]["route_case"]
+            doc, user = fix_keys(rc["doc"], rc.get("user"))
+            run_route_case(doc, user, rc["platform"], [job["case"]["route"]], rc.get("flags") or {}, w, scratch,
+                           {"route_case": rc})
+        elif "history" in job["case"]:
             run_history(job["case"]["history"], w, scratch)
         else:
             evaluate(job["case"], w, scratch)
+        return
+    if job["kind"] == "routes":
+        for index in range(job["start"], job["start"] + job["count"]):
+            doc, user, chains = gen_route_doc(index)
+            w.count("route_documents")
+            w.count("route_chains_generated", chains)
+            for q, platform in enumerate(doc["platforms"]):
+                flags = routes.INSTANCE_FLAG_SETS[(index + q) % len(routes.INSTANCE_FLAG_SETS)]
+                run_route_case(doc, user, platform, ROUTES, flags, w, scratch,
+                               {"route_case": {"doc": doc, "user": user, "platform": platform, "flags": flags,
+                                               "doc_index": index}})
         return
     if job["kind"] == "updates":
         for index in range(job["start"], job["start"] + job["count"]):
@@ -639,7 +794,8 @@ def main():
              "platform) of the exhaustive lattice slice + (update kind, section written relative to the queried "
              "pair, expected outcome changed?, expected status, queried platform is default?) classes of the "
              "update histories + (read-only operation, its flags, same / other platform than the queried one, "
-             "expected status, queried platform is default?) classes",
+             "expected status, queried platform is default?) classes + (route, chain inside the component?, user "
+             "variable file?, expected status, platform is default?) classes of the route slice",
         assumptions=[
             "the built-in defaults layer is taken from FlowIR.default_component_structure() of the tree under test",
             "option values have an unambiguous reading for their declared type (ints/decimal strings for int and "
@@ -662,6 +818,15 @@ def main():
             "get_component_variables() are taken to leave the description unchanged (the tracked document is not "
             "touched by them); their own results and exceptions are not judged (observe_at is the resolved "
             "configuration query), only the queries that follow",
+            "routes instance / replicate / package-on-disk: a (component, platform) pair is judged through them only "
+            "when no definition made at global (stage) scope - variable or blueprint option that wins for the pair - "
+            "references a variable whose winning definition lies in a higher scope (stage / component): the collapsed "
+            "FlowIR stores global- and stage-scope definitions already substituted at their own scope, a live "
+            "FlowIRConcrete substitutes after layering, and the statement does not say which reading the collapsed "
+            "FlowIR must have (such pairs are counted as *_not_judged_lower_scope_references_higher_scope); references "
+            "made by the component's own definitions (variables, options, override) are always judged; no replica "
+            "variables, loop placeholders or references between components in these documents; the package route "
+            "uses validate=False and the flowir format",
             "the dict-valued option that is varied is resourceManager.kubernetes.podSpec (dictionaries merge key by "
             "key across the layers, string values inside are substituted); its values only reference variables that "
             "default.global defines",
@@ -683,11 +848,24 @@ def main():
         jobs.append({"kind": "lattice", "indices": list(part)})
     for start in range(0, n_docs, per):
         jobs.append({"kind": "random", "start": start, "count": min(per, n_docs - start)})
+    n_route = N_ROUTE_QUICK if quick else N_ROUTE_THOROUGH
+    for start in range(0, n_route, ROUTE_PER_JOB):
+        jobs.append({"kind": "routes", "start": start, "count": min(ROUTE_PER_JOB, n_route - start)})
     n_hist = N_HIST_QUICK if quick else N_HIST_THOROUGH
     for start in range(0, n_hist, HIST_PER_JOB):
         jobs.append({"kind": "updates", "start": start, "count": min(HIST_PER_JOB, n_hist - start)})
     vlib.fanout("checks.C04", jobs, c, timeout=900)
     h0 = gen_history(0)
+    c.extra["route_slice"] = {
+        "what": "every component of %d documents x 3 platforms read through instance(platform=P, loader flags) -> "
+                "FlowIRConcrete(result), replicate(platform=P, ignore_errors=True) -> FlowIRConcrete(result) and a "
+                "package on disk loaded with ExperimentConfigurationFactory.configurationForExperiment(platform=P, "
+                "variable_files=[user file], primitive=False) + configurationForNode; judged with the same reference "
+                "layering; plus instance()/replicate() of the live object at %d checkpoints of the update histories"
+                % (c.counters.get("route_documents", 0), c.counters.get("update_route_checkpoints", 0)),
+        "instance_flag_sets": routes.INSTANCE_FLAG_SETS,
+        "not_judged_lower_scope_references_higher_scope": c.counters.get(
+            "route_instance_not_judged_lower_scope_references_higher_scope", 0)}
     c.extra["update_slice"] = {
         "what": "one live FlowIRConcrete per history (active platform may differ from the queried one): query "
                 "(component, platform) pairs, change one variable of one layer through the public setters "
@@ -724,6 +902,21 @@ def main():
         c.floor("update_changed_by_" + rel, 40 * k)
     c.floor("update_changed_by_user", 12 * k)
     c.floor("update_unchanged_by_section_of_foreign_platform", 40 * k)
+    # the routes through which a resolved configuration reaches its users (round 5)
+    for r_ in ROUTES:
+        c.floor("route_%s_evaluated" % r_, 400 * k)
+        c.floor("route_%s_configurations_equal_to_reference" % r_, 250 * k)
+        c.floor("route_%s_expect_undefined_error" % r_, 50 * k)
+        c.floor("route_%s_chain_inside_component" % r_, 150 * k)
+        c.floor("route_%s_chain_starts_in_override" % r_, 60 * k)
+        c.floor("route_%s_chain_lower_layer_ds" % r_, 120 * k)
+        c.floor("route_%s_chain_lower_layer_ps" % r_, 100 * k)
+        c.floor("route_%s_chain_lower_layer_user" % r_, 30 * k)
+        c.floor("route_%s_with_user_variables" % r_, 100 * k)
+    c.floor("update_route_checkpoints", 200 * k)
+    for r_ in ("instance", "replicate"):
+        c.floor("update_route_%s_evaluated" % r_, 300 * k)
+        c.floor("update_route_%s_chain_inside_component" % r_, 15 * k)
     # read-only operations between the queries (round 4)
     c.floor("update_histories_readonly_before_first_query", 40 * k)
     c.floor("update_histories_with_instance_or_replicate", 100 * k)
